@@ -86,4 +86,13 @@ theorem all_path_ops_depend_on_clean_path_only (cfg : Cfg) (w : World) (st : Sta
     step cfg w st (.getDirSize p) = step cfg w st (.getDirSize p') := by
   refine ⟨?_, ?_, ?_, ?_, ?_, ?_, ?_⟩ <;> simp only [step, h]
 
+/-- The served root directory itself is never removed, whatever spelling of it a client sends
+    ("/", "", "/..", "/x/../.." all clean to the root): RMDIR answers the failure code and nothing changes.
+    (Removing it would change the root's parent directory, which lies outside the root.) -/
+theorem root_never_removed (cfg : Cfg) (w : World) (st : State) (raw : Bytes)
+    (hroot : cleanRequest raw = []) :
+    step cfg w st (.rmdir raw) = (w, st, ⟨rmdirResult false, false⟩) := by
+  simp only [step, hroot]
+  cases cfg.allowWrite <;> simp
+
 end Ps3.Props.C01
